@@ -10,33 +10,33 @@
 EXTENDS Integers, Sequences, FiniteSets, TLC, Json, TLCExt
 TraceLog == ndJsonDeserialize("conc.ndjson")
 MaxG == 8
-VARIABLES sync, open, writes, inw, l, failed, bad
-tvars == <<sync, open, writes, inw, l, failed, bad>>
-TInit == sync = FALSE /\ open = [g \in 1..MaxG |-> 0] /\ writes = [g \in 1..MaxG |-> 0] /\ inw = {} /\ l = 1 /\ failed = FALSE /\ bad = <<>>
+VARIABLES sync, open, writes, want, inw, l, failed, bad
+tvars == <<sync, open, writes, want, inw, l, failed, bad>>
+TInit == sync = FALSE /\ open = [g \in 1..MaxG |-> 0] /\ writes = [g \in 1..MaxG |-> 0] /\ want = [g \in 1..MaxG |-> 1] /\ inw = {} /\ l = 1 /\ failed = FALSE /\ bad = <<>>
 GName(g) == "G" \o ToString(g)
 Guard(e) ==
-  CASE e.a = "EvStart" -> open[e.g] = 0
+  CASE e.a = "EvStart" -> open[e.g] = 0 /\ e.nw \in {0, 1}         \* nw = 0: a hook discards this event when the chain runs alone
     [] e.a = "WStart" -> /\ e.g \in 1..MaxG /\ e.by = GName(e.g)       \* written by the goroutine that logged it
-                         /\ open[e.g] = e.k /\ writes[e.g] = 0          \* the event it is currently emitting, first write
+                         /\ open[e.g] = e.k /\ writes[e.g] = 0 /\ want[e.g] = 1   \* the event it is currently emitting, first write, not a discarded one
                          /\ e.intact                                    \* byte-identical to the solo run
                          /\ (sync => inw = {})                          \* SyncWriter: no overlapping calls
     [] e.a = "WEnd" -> e.stable /\ e.by \in inw
-    [] e.a = "EvEnd" -> open[e.g] = e.k /\ writes[e.g] = 1 /\ GName(e.g) \notin inw   \* exactly one Write per event
+    [] e.a = "EvEnd" -> open[e.g] = e.k /\ writes[e.g] = want[e.g] /\ GName(e.g) \notin inw   \* exactly one Write per emitted event, none for a discarded one
     [] e.a = "End" -> e.done /\ inw = {} /\ \A g \in 1..MaxG : open[g] = 0
     [] OTHER -> FALSE
 Effect(e) ==
-  CASE e.a = "EvStart" -> open' = [open EXCEPT ![e.g] = e.k] /\ writes' = [writes EXCEPT ![e.g] = 0] /\ UNCHANGED <<sync, inw>>
-    [] e.a = "WStart" -> writes' = [writes EXCEPT ![e.g] = 1] /\ inw' = inw \cup {e.by} /\ UNCHANGED <<sync, open>>
-    [] e.a = "WEnd" -> inw' = inw \ {e.by} /\ UNCHANGED <<sync, open, writes>>
-    [] e.a = "EvEnd" -> open' = [open EXCEPT ![e.g] = 0] /\ UNCHANGED <<sync, writes, inw>>
-    [] OTHER -> UNCHANGED <<sync, open, writes, inw>>
+  CASE e.a = "EvStart" -> open' = [open EXCEPT ![e.g] = e.k] /\ writes' = [writes EXCEPT ![e.g] = 0] /\ want' = [want EXCEPT ![e.g] = e.nw] /\ UNCHANGED <<sync, inw>>
+    [] e.a = "WStart" -> writes' = [writes EXCEPT ![e.g] = 1] /\ inw' = inw \cup {e.by} /\ UNCHANGED <<sync, open, want>>
+    [] e.a = "WEnd" -> inw' = inw \ {e.by} /\ UNCHANGED <<sync, open, writes, want>>
+    [] e.a = "EvEnd" -> open' = [open EXCEPT ![e.g] = 0] /\ UNCHANGED <<sync, writes, want, inw>>
+    [] OTHER -> UNCHANGED <<sync, open, writes, want, inw>>
 TNext ==
   /\ l <= Len(TraceLog) /\ l' = l + 1
   /\ LET e == TraceLog[l] IN
-     IF e.a = "Reset" THEN sync' = e.sync /\ open' = [g \in 1..MaxG |-> 0] /\ writes' = [g \in 1..MaxG |-> 0] /\ inw' = {} /\ failed' = FALSE /\ UNCHANGED bad
-     ELSE IF failed THEN UNCHANGED <<sync, open, writes, inw, failed, bad>>
+     IF e.a = "Reset" THEN sync' = e.sync /\ open' = [g \in 1..MaxG |-> 0] /\ writes' = [g \in 1..MaxG |-> 0] /\ want' = [g \in 1..MaxG |-> 1] /\ inw' = {} /\ failed' = FALSE /\ UNCHANGED bad
+     ELSE IF failed THEN UNCHANGED <<sync, open, writes, want, inw, failed, bad>>
      ELSE IF Guard(e) THEN Effect(e) /\ UNCHANGED <<failed, bad>>
-     ELSE failed' = TRUE /\ bad' = Append(bad, <<l, "">>) /\ UNCHANGED <<sync, open, writes, inw>>
+     ELSE failed' = TRUE /\ bad' = Append(bad, <<l, "">>) /\ UNCHANGED <<sync, open, writes, want, inw>>
 TSpec == TInit /\ [][TNext]_tvars
 Report == l <= Len(TraceLog) \/ PrintT("@@BADLINES|" \o ToString(Len(TraceLog)) \o "|" \o ToJson(bad))
 =============================================================================
